@@ -1,1 +1,1581 @@
+//! Core-language program generator: its own AST (G-AST), a printer to mimium
+//! source and a typed, feature-switchable random generator. The reference
+//! interpreter (`refsem`) evaluates the same G-AST; nothing here shares code with
+//! the compiler under test.
 
+use crate::util::Rng;
+use serde::{Deserialize, Serialize};
+
+#[derive(Clone, Debug, PartialEq, Serialize, Deserialize)]
+pub enum Ty {
+    F,
+    Tup(Vec<Ty>),
+    Rec(Vec<(String, Ty)>),
+    Fun(Vec<Ty>, Box<Ty>),
+}
+
+impl Ty {
+    pub fn print(&self) -> String {
+        match self {
+            Ty::F => "float".into(),
+            Ty::Tup(v) => format!("({})", v.iter().map(|t| t.print()).collect::<Vec<_>>().join(",")),
+            Ty::Rec(v) => format!(
+                "{{{}}}",
+                v.iter().map(|(n, t)| format!("{n}:{}", t.print())).collect::<Vec<_>>().join(", ")
+            ),
+            Ty::Fun(a, r) => {
+                format!("({})->{}", a.iter().map(|t| t.print()).collect::<Vec<_>>().join(","), r.print())
+            }
+        }
+    }
+    pub fn words(&self) -> usize {
+        match self {
+            Ty::F | Ty::Fun(..) => 1,
+            Ty::Tup(v) => v.iter().map(|t| t.words()).sum(),
+            Ty::Rec(v) => v.iter().map(|(_, t)| t.words()).sum(),
+        }
+    }
+    pub fn is_data(&self) -> bool {
+        match self {
+            Ty::F => true,
+            Ty::Tup(v) => v.iter().all(|t| t.is_data()),
+            Ty::Rec(v) => v.iter().all(|(_, t)| t.is_data()),
+            Ty::Fun(..) => false,
+        }
+    }
+}
+
+#[derive(Clone, Copy, Debug, PartialEq, Eq, Hash, Serialize, Deserialize)]
+pub enum BinOp {
+    Add,
+    Sub,
+    Mul,
+    Div,
+    Mod,
+    Pow,
+    Lt,
+    Le,
+    Gt,
+    Ge,
+    Eq,
+    Ne,
+    And,
+    Or,
+}
+impl BinOp {
+    pub fn sym(self) -> &'static str {
+        match self {
+            BinOp::Add => "+",
+            BinOp::Sub => "-",
+            BinOp::Mul => "*",
+            BinOp::Div => "/",
+            BinOp::Mod => "%",
+            BinOp::Pow => "^",
+            BinOp::Lt => "<",
+            BinOp::Le => "<=",
+            BinOp::Gt => ">",
+            BinOp::Ge => ">=",
+            BinOp::Eq => "==",
+            BinOp::Ne => "!=",
+            BinOp::And => "&&",
+            BinOp::Or => "||",
+        }
+    }
+}
+
+#[derive(Clone, Debug, PartialEq, Serialize, Deserialize)]
+pub enum Pat {
+    Var(String),
+    Tup(Vec<Pat>),
+    /// record pattern `{field = binder, ..}`
+    Rec(Vec<(String, String)>),
+}
+
+#[derive(Clone, Debug, PartialEq, Serialize, Deserialize)]
+pub struct Param {
+    pub name: String,
+    pub ty: Ty,
+    /// print the type annotation
+    pub annot: bool,
+    pub default: Option<f64>,
+}
+
+/// How a call's arguments are written.
+#[derive(Clone, Copy, Debug, PartialEq, Eq, Serialize, Deserialize)]
+pub enum CallStyle {
+    Positional,
+    /// `f({a = e, b = e})` naming every non-defaulted parameter, defaulted ones omitted
+    RecordOmitDefaults,
+    /// `f({a = e, ..})`
+    RecordDotDot,
+}
+
+#[derive(Clone, Debug, PartialEq, Serialize, Deserialize)]
+pub enum E {
+    /// literal; `int_spelling` prints `3` instead of `3.0`
+    Num(f64, bool),
+    Var(String),
+    Bin(BinOp, Box<E>, Box<E>),
+    Neg(Box<E>),
+    Not(Box<E>),
+    /// math builtin by name
+    Builtin(String, Vec<E>),
+    /// call of a named global function; `site` identifies the textual call site
+    CallFn { name: String, args: Vec<E>, style: CallStyle, site: u32 },
+    /// call of a function value held in a variable / produced by an expression
+    CallVal(Box<E>, Vec<E>),
+    /// `arg |> f` with a named global function (site as for CallFn)
+    PipeFn { arg: Box<E>, name: String, site: u32 },
+    /// `arg |> v` with a function value in a variable
+    PipeVal(Box<E>, Box<E>),
+    If(Box<E>, Box<E>, Box<E>),
+    Tuple(Vec<E>),
+    Proj(Box<E>, usize),
+    Record(Vec<(String, E)>),
+    Field(Box<E>, String),
+    Lambda(Vec<Param>, Box<Block>),
+    /// reference to a named global function used as a value
+    FnRef(String),
+    Block(Box<Block>),
+    SelfE,
+    Mem(Box<E>, u32),
+    /// delay(n, input, time)
+    Delay(u32, Box<E>, Box<E>, u32),
+    Now,
+    SampleRate,
+}
+
+#[derive(Clone, Debug, PartialEq, Serialize, Deserialize)]
+pub enum Stmt {
+    Let(Pat, Option<Ty>, E),
+    Assign(String, E),
+}
+
+#[derive(Clone, Debug, PartialEq, Serialize, Deserialize)]
+pub struct Block {
+    pub stmts: Vec<Stmt>,
+    pub result: E,
+}
+
+#[derive(Clone, Debug, PartialEq, Serialize, Deserialize)]
+pub struct FnDef {
+    pub name: String,
+    pub params: Vec<Param>,
+    pub ret: Ty,
+    pub ret_annot: bool,
+    pub body: Block,
+    /// uses self/mem/delay or calls a stateful function
+    pub stateful: bool,
+}
+
+#[derive(Clone, Debug, PartialEq, Serialize, Deserialize)]
+pub struct Program {
+    /// top-level data `let`s printed before the functions (functions may read them)
+    pub pre_globals: Vec<(String, Ty, E)>,
+    pub fns: Vec<FnDef>,
+    /// top-level `let name = expr`, evaluated once, after the functions are defined
+    pub globals: Vec<(String, Ty, E)>,
+    pub dsp: FnDef,
+    /// features exercised (for evidence)
+    pub features: Vec<String>,
+}
+
+// ------------------------------------------------------------------ printer
+
+pub fn fmt_num(v: f64, int_spelling: bool) -> String {
+    if int_spelling && v.fract() == 0.0 && v.abs() < 1e9 && v >= 0.0 {
+        format!("{}", v as i64)
+    } else {
+        let s = format!("{v:?}");
+        debug_assert!(!s.contains('e'), "literal {s} needs exponent syntax");
+        s
+    }
+}
+
+pub struct Printer {
+    pub out: String,
+    indent: usize,
+}
+
+impl Printer {
+    pub fn new() -> Self {
+        Printer { out: String::new(), indent: 0 }
+    }
+    fn nl(&mut self) {
+        self.out.push('\n');
+        for _ in 0..self.indent {
+            self.out.push_str("  ");
+        }
+    }
+    pub fn pat(p: &Pat) -> String {
+        match p {
+            Pat::Var(v) => v.clone(),
+            Pat::Tup(v) => format!("({})", v.iter().map(Self::pat).collect::<Vec<_>>().join(", ")),
+            Pat::Rec(v) => {
+                format!("{{{}}}", v.iter().map(|(f, b)| format!("{f} = {b}")).collect::<Vec<_>>().join(", "))
+            }
+        }
+    }
+    fn params(ps: &[Param]) -> String {
+        ps.iter()
+            .map(|p| {
+                let mut s = p.name.clone();
+                if p.annot {
+                    s.push(':');
+                    s.push_str(&p.ty.print());
+                }
+                if let Some(d) = p.default {
+                    s.push_str(" = ");
+                    s.push_str(&fmt_num(d, false));
+                }
+                s
+            })
+            .collect::<Vec<_>>()
+            .join(", ")
+    }
+    pub fn block(&mut self, b: &Block) {
+        self.out.push('{');
+        self.indent += 1;
+        for s in &b.stmts {
+            self.nl();
+            match s {
+                Stmt::Let(p, t, e) => {
+                    self.out.push_str("let ");
+                    self.out.push_str(&Self::pat(p));
+                    if let Some(t) = t {
+                        self.out.push(':');
+                        self.out.push_str(&t.print());
+                    }
+                    self.out.push_str(" = ");
+                    self.expr(e);
+                }
+                Stmt::Assign(n, e) => {
+                    self.out.push_str(n);
+                    self.out.push_str(" = ");
+                    self.expr(e);
+                }
+            }
+        }
+        self.nl();
+        self.expr(&b.result);
+        self.indent -= 1;
+        self.nl();
+        self.out.push('}');
+    }
+    fn args(&mut self, args: &[E]) {
+        for (i, a) in args.iter().enumerate() {
+            if i > 0 {
+                self.out.push_str(", ");
+            }
+            self.expr(a);
+        }
+    }
+    pub fn expr(&mut self, e: &E) {
+        match e {
+            E::Num(v, i) => self.out.push_str(&fmt_num(*v, *i)),
+            E::Var(v) => self.out.push_str(v),
+            E::Bin(op, a, b) => {
+                self.out.push('(');
+                self.expr(a);
+                self.out.push(' ');
+                self.out.push_str(op.sym());
+                self.out.push(' ');
+                self.expr(b);
+                self.out.push(')');
+            }
+            E::Neg(a) => {
+                self.out.push_str("(-");
+                self.expr(a);
+                self.out.push(')');
+            }
+            E::Not(a) => {
+                self.out.push_str("not(");
+                self.expr(a);
+                self.out.push(')');
+            }
+            E::Builtin(n, args) => {
+                self.out.push_str(n);
+                self.out.push('(');
+                self.args(args);
+                self.out.push(')');
+            }
+            E::CallFn { name, args, style, .. } => {
+                self.out.push_str(name);
+                self.out.push('(');
+                match (style, args.first()) {
+                    (CallStyle::Positional, _) => self.args(args),
+                    (_, Some(E::Record(fs))) => {
+                        self.out.push('{');
+                        for (i, (n, v)) in fs.iter().enumerate() {
+                            if i > 0 {
+                                self.out.push_str(", ");
+                            }
+                            self.out.push_str(n);
+                            self.out.push_str(" = ");
+                            self.expr(v);
+                        }
+                        if *style == CallStyle::RecordDotDot {
+                            self.out.push_str(if fs.is_empty() { ".." } else { ", .." });
+                        }
+                        self.out.push('}');
+                    }
+                    _ => self.args(args),
+                }
+                self.out.push(')');
+            }
+            E::CallVal(f, args) => {
+                match **f {
+                    E::Var(_) => self.expr(f),
+                    _ => {
+                        self.out.push('(');
+                        self.expr(f);
+                        self.out.push(')');
+                    }
+                }
+                self.out.push('(');
+                self.args(args);
+                self.out.push(')');
+            }
+            E::PipeFn { arg, name, .. } => {
+                self.out.push('(');
+                self.expr(arg);
+                self.out.push_str(" |> ");
+                self.out.push_str(name);
+                self.out.push(')');
+            }
+            E::PipeVal(arg, f) => {
+                self.out.push('(');
+                self.expr(arg);
+                self.out.push_str(" |> ");
+                self.expr(f);
+                self.out.push(')');
+            }
+            E::If(c, a, b) => {
+                self.out.push_str("(if (");
+                self.expr(c);
+                self.out.push_str(") ");
+                self.arm(a);
+                self.out.push_str(" else ");
+                self.arm(b);
+                self.out.push(')');
+            }
+            E::Tuple(v) => {
+                self.out.push('(');
+                self.args(v);
+                if v.len() == 1 {
+                    self.out.push(',');
+                }
+                self.out.push(')');
+            }
+            E::Proj(t, i) => {
+                self.atom(t);
+                self.out.push('.');
+                self.out.push_str(&i.to_string());
+            }
+            E::Record(fs) => {
+                self.out.push('{');
+                for (i, (n, v)) in fs.iter().enumerate() {
+                    if i > 0 {
+                        self.out.push_str(", ");
+                    }
+                    self.out.push_str(n);
+                    self.out.push_str(" = ");
+                    self.expr(v);
+                }
+                self.out.push('}');
+            }
+            E::Field(r, f) => {
+                self.atom(r);
+                self.out.push('.');
+                self.out.push_str(f);
+            }
+            E::Lambda(ps, body) => {
+                self.out.push('|');
+                self.out.push_str(&Self::params(ps));
+                self.out.push_str("| ");
+                self.block(body);
+            }
+            E::FnRef(n) => self.out.push_str(n),
+            E::Block(b) => self.block(b),
+            E::SelfE => self.out.push_str("self"),
+            E::Mem(a, _) => {
+                self.out.push_str("mem(");
+                self.expr(a);
+                self.out.push(')');
+            }
+            E::Delay(n, x, t, _) => {
+                self.out.push_str(&format!("delay({}, ", fmt_num(*n as f64, false)));
+                self.expr(x);
+                self.out.push_str(", ");
+                self.expr(t);
+                self.out.push(')');
+            }
+            E::Now => self.out.push_str("now"),
+            E::SampleRate => self.out.push_str("samplerate"),
+        }
+    }
+    fn atom(&mut self, e: &E) {
+        match e {
+            E::Var(_) | E::Proj(..) | E::Field(..) => self.expr(e),
+            _ => {
+                self.out.push('(');
+                self.expr(e);
+                self.out.push(')');
+            }
+        }
+    }
+    fn arm(&mut self, e: &E) {
+        match e {
+            E::Block(b) => self.block(b),
+            _ => {
+                self.out.push_str("{ ");
+                self.expr(e);
+                self.out.push_str(" }");
+            }
+        }
+    }
+    pub fn fndef(&mut self, f: &FnDef) {
+        self.out.push_str("fn ");
+        self.out.push_str(&f.name);
+        self.out.push('(');
+        self.out.push_str(&Self::params(&f.params));
+        self.out.push(')');
+        if f.ret_annot {
+            self.out.push_str("->");
+            self.out.push_str(&f.ret.print());
+        }
+        self.block(&f.body);
+        self.out.push('\n');
+    }
+}
+
+impl Program {
+    pub fn print(&self) -> String {
+        let mut p = Printer::new();
+        for (n, _t, e) in &self.pre_globals {
+            p.out.push_str("let ");
+            p.out.push_str(n);
+            p.out.push_str(" = ");
+            p.expr(e);
+            p.out.push('\n');
+        }
+        for f in &self.fns {
+            p.fndef(f);
+        }
+        for (n, _t, e) in &self.globals {
+            p.out.push_str("let ");
+            p.out.push_str(n);
+            p.out.push_str(" = ");
+            p.expr(e);
+            p.out.push('\n');
+        }
+        p.fndef(&self.dsp);
+        p.out
+    }
+    pub fn find_fn(&self, name: &str) -> Option<&FnDef> {
+        if name == "dsp" { Some(&self.dsp) } else { self.fns.iter().find(|f| f.name == name) }
+    }
+}
+
+// ------------------------------------------------------------------ generator
+
+/// Feature switches.
+#[derive(Clone, Debug, Serialize, Deserialize)]
+pub struct Feat {
+    pub tuples: bool,
+    pub records: bool,
+    pub lambdas: bool,
+    pub closures_assign: bool,
+    pub escaping_closures: bool,
+    pub hof: bool,
+    pub pipes: bool,
+    pub defaults: bool,
+    /// `f({a = e, ..})` form for default arguments
+    pub defaults_dotdot: bool,
+    pub self_: bool,
+    pub self_tuple: bool,
+    pub mem: bool,
+    pub delay: bool,
+    pub now: bool,
+    pub samplerate: bool,
+    pub dsp_input: bool,
+    pub math: bool,
+    pub modulo: bool,
+    pub pow: bool,
+    pub div: bool,
+    /// logic operators on arbitrary (possibly negative) operands
+    pub raw_logic: bool,
+    /// stateful calls inside `if` arms
+    pub branch_state: bool,
+    /// global data (tuples / numbers) read from functions
+    pub globals: bool,
+    /// many locals in one function (> 256 registers)
+    pub many_locals: bool,
+    /// bounded numeric recursion (stateless)
+    pub recursion: bool,
+    pub max_fns: usize,
+    pub max_state_depth: usize,
+    pub budget: usize,
+    pub int_spelling: bool,
+    pub annot_floats: bool,
+    /// names of defect classes the generator must not produce (static quarantines)
+    pub avoid: Vec<String>,
+}
+
+impl Feat {
+    pub fn avoids(&self, q: &str) -> bool {
+        self.avoid.iter().any(|x| x == q)
+    }
+}
+
+impl Feat {
+    pub fn all(budget: usize) -> Feat {
+        Feat {
+            tuples: true,
+            records: true,
+            lambdas: true,
+            closures_assign: true,
+            escaping_closures: true,
+            hof: true,
+            pipes: true,
+            defaults: true,
+            defaults_dotdot: false,
+            self_: true,
+            self_tuple: true,
+            mem: true,
+            delay: true,
+            now: true,
+            samplerate: true,
+            dsp_input: true,
+            math: true,
+            modulo: true,
+            pow: true,
+            div: true,
+            raw_logic: false,
+            branch_state: false,
+            globals: true,
+            many_locals: false,
+            recursion: true,
+            max_fns: 6,
+            max_state_depth: 3,
+            budget,
+            int_spelling: true,
+            annot_floats: true,
+            avoid: vec![],
+        }
+    }
+}
+
+#[derive(Clone, Debug)]
+struct Sig {
+    name: String,
+    params: Vec<Param>,
+    ret: Ty,
+    stateful: bool,
+    /// recursion helper: first param is the decreasing counter
+    recursive: bool,
+    /// height of the stateful call tree below this function (1 = only own cells)
+    depth: usize,
+}
+
+#[derive(Clone)]
+struct Scope {
+    /// (name, type, assignable)
+    vars: Vec<(String, Ty, bool)>,
+}
+
+pub struct Gen<'a> {
+    rng: &'a mut Rng,
+    pub feat: Feat,
+    sigs: Vec<Sig>,
+    globals: Vec<(String, Ty)>,
+    next_name: u32,
+    next_site: u32,
+    used: std::collections::BTreeSet<String>,
+    /// context flags
+    stateful_ok: bool,
+    in_lambda: u32,
+    in_branch: u32,
+    self_ty: Option<Ty>,
+    state_depth_left: usize,
+    used_state: bool,
+    max_callee_depth: usize,
+    in_aggregate: u32,
+    /// >0: only side-effect-free, stateless expressions (evaluation order must not matter)
+    pure_only: u32,
+    /// >0: the expression being generated is an argument of a call
+    fun_arg: u32,
+}
+
+const LITS: [f64; 22] = [
+    0.0, 1.0, 2.0, 3.0, 4.0, 5.0, 7.0, 10.0, 0.5, 0.25, 0.1, 0.3, 1.5, 2.5, 0.01, 100.0, 0.999, 3.7, 12.0, 0.75, 6.0,
+    0.2,
+];
+const MATH1: [&str; 9] = ["sin", "cos", "abs", "sqrt", "floor", "ceil", "round", "tanh", "atan"];
+const MATH2: [&str; 2] = ["min", "max"];
+
+impl<'a> Gen<'a> {
+    pub fn new(rng: &'a mut Rng, feat: Feat) -> Self {
+        Gen {
+            rng,
+            feat,
+            sigs: vec![],
+            globals: vec![],
+            next_name: 0,
+            next_site: 0,
+            used: Default::default(),
+            stateful_ok: false,
+            in_lambda: 0,
+            in_branch: 0,
+            self_ty: None,
+            state_depth_left: 0,
+            used_state: false,
+            max_callee_depth: 0,
+            in_aggregate: 0,
+            pure_only: 0,
+            fun_arg: 0,
+        }
+    }
+    fn branch_ok(&self) -> bool {
+        !(self.in_aggregate > 0 && self.feat.avoids("if-inside-aggregate-literal"))
+    }
+    fn fresh(&mut self, prefix: &str) -> String {
+        self.next_name += 1;
+        format!("{prefix}{}", self.next_name)
+    }
+    fn site(&mut self) -> u32 {
+        self.next_site += 1;
+        self.next_site
+    }
+    fn mark(&mut self, f: &str) {
+        self.used.insert(f.to_string());
+    }
+    fn lit(&mut self) -> E {
+        let v = *self.rng.pick(&LITS);
+        E::Num(v, self.feat.int_spelling && v.fract() == 0.0 && self.rng.chance(1, 2))
+    }
+    fn rand_data_ty(&mut self, depth: usize) -> Ty {
+        let mut w = vec![6u32];
+        w.push(if self.feat.tuples && depth < 2 { 2 } else { 0 });
+        w.push(if self.feat.records && depth < 2 { 1 } else { 0 });
+        match self.rng.weighted(&w) {
+            0 => Ty::F,
+            1 => {
+                let n = self.rng.range(2, 3) as usize;
+                Ty::Tup((0..n).map(|_| self.rand_data_ty(depth + 1)).collect())
+            }
+            _ => {
+                let n = self.rng.range(1, 3) as usize;
+                let mut names = vec!["p", "q", "r", "s"];
+                self.rng.shuffle(&mut names);
+                let mut names: Vec<&str> = names[..n].to_vec();
+                // field order of record types is canonical (sorted), so that the
+                // evaluation order of an unshuffled literal is not in question
+                names.sort();
+                Ty::Rec(names.iter().map(|n| (n.to_string(), self.rand_data_ty(depth + 1))).collect())
+            }
+        }
+    }
+
+    // ---- expressions
+
+    fn vars_of<'s>(&self, sc: &'s Scope, ty: &Ty) -> Vec<&'s (String, Ty, bool)> {
+        sc.vars.iter().filter(|v| &v.1 == ty).collect()
+    }
+
+    /// paths into data-typed variables yielding a float: (expr)
+    fn float_paths(&self, sc: &Scope) -> Vec<E> {
+        fn rec(base: E, ty: &Ty, out: &mut Vec<E>, depth: usize) {
+            match ty {
+                Ty::F => out.push(base),
+                Ty::Tup(v) if depth < 3 => {
+                    for (i, t) in v.iter().enumerate() {
+                        rec(E::Proj(Box::new(base.clone()), i), t, out, depth + 1);
+                    }
+                }
+                Ty::Rec(v) if depth < 3 => {
+                    for (n, t) in v {
+                        rec(E::Field(Box::new(base.clone()), n.clone()), t, out, depth + 1);
+                    }
+                }
+                _ => {}
+            }
+        }
+        let mut out = vec![];
+        for (n, t, _) in &sc.vars {
+            rec(E::Var(n.clone()), t, &mut out, 0);
+        }
+        if self.feat.globals {
+            for (n, t) in &self.globals {
+                rec(E::Var(n.clone()), t, &mut out, 0);
+            }
+        }
+        out
+    }
+
+    fn state_allowed(&self) -> bool {
+        self.stateful_ok && self.pure_only == 0 && self.in_lambda == 0 && (self.in_branch == 0 || self.feat.branch_state)
+    }
+
+    pub fn expr(&mut self, ty: &Ty, sc: &Scope, budget: &mut usize) -> E {
+        if *budget > 0 {
+            *budget -= 1;
+        }
+        match ty {
+            Ty::F => self.expr_f(sc, budget),
+            Ty::Tup(ts) => {
+                let cands = self.vars_of(sc, ty).into_iter().map(|v| v.0.clone()).collect::<Vec<_>>();
+                let mut w = vec![5u32, if cands.is_empty() { 0 } else { 3 }];
+                // if / self / call returning this type
+                w.push(if *budget > 4 && self.branch_ok() { 1 } else { 0 });
+                w.push(
+                    if self.self_ty.as_ref() == Some(ty) && self.state_allowed() && !self.feat.avoids("projection-from-self") {
+                        3
+                    } else {
+                        0
+                    },
+                );
+                let fns: Vec<Sig> = self.callable(ty);
+                w.push(if !fns.is_empty() && *budget > 2 { 3 } else { 0 });
+                match self.rng.weighted(&w) {
+                    0 => {
+                        self.mark("tuple");
+                        self.in_aggregate += 1;
+                        let r = E::Tuple(ts.iter().map(|t| self.expr(t, sc, budget)).collect());
+                        self.in_aggregate -= 1;
+                        r
+                    }
+                    1 => E::Var(self.rng.pick(&cands).clone()),
+                    2 => self.if_expr(ty, sc, budget),
+                    3 => {
+                        self.mark("self_tuple");
+                        self.used_state = true;
+                        E::SelfE
+                    }
+                    _ => {
+                        let s = self.rng.pick(&fns).clone();
+                        self.call(&s, sc, budget)
+                    }
+                }
+            }
+            Ty::Rec(fs) => {
+                let cands = self.vars_of(sc, ty).into_iter().map(|v| v.0.clone()).collect::<Vec<_>>();
+                let fns: Vec<Sig> = self.callable(ty);
+                let w = [5u32, if cands.is_empty() { 0 } else { 3 }, if !fns.is_empty() && *budget > 2 { 3 } else { 0 }];
+                match self.rng.weighted(&w) {
+                    0 => {
+                        self.mark("record");
+                        // field order in the literal may differ from the type's order
+                        let mut idx: Vec<usize> = (0..fs.len()).collect();
+                        let mut shuffled = false;
+                        if self.rng.chance(1, 3) {
+                            self.rng.shuffle(&mut idx);
+                            if idx.iter().enumerate().any(|(i, j)| i != *j) {
+                                self.mark("record_shuffled_literal");
+                                shuffled = true;
+                            }
+                        }
+                        // the compiler evaluates fields in canonical, not literal, order:
+                        // keep the fields of a shuffled literal free of effects
+                        self.in_aggregate += 1;
+                        self.pure_only += shuffled as u32;
+                        let r = E::Record(idx.iter().map(|&i| (fs[i].0.clone(), self.expr(&fs[i].1, sc, budget))).collect());
+                        self.pure_only -= shuffled as u32;
+                        self.in_aggregate -= 1;
+                        r
+                    }
+                    1 => E::Var(self.rng.pick(&cands).clone()),
+                    _ => {
+                        let s = self.rng.pick(&fns).clone();
+                        self.call(&s, sc, budget)
+                    }
+                }
+            }
+            Ty::Fun(args, ret) => {
+                let arg_pure = self.fun_arg > 0 && self.feat.avoids("assign-in-closure-passed-as-argument");
+                let cands = if arg_pure {
+                    vec![]
+                } else {
+                    self.vars_of(sc, ty).into_iter().map(|v| v.0.clone()).collect::<Vec<_>>()
+                };
+                self.pure_only += arg_pure as u32;
+                let saved_fun_arg = std::mem::replace(&mut self.fun_arg, 0);
+                let r = self.expr_fun(args, ret, ty, sc, budget, cands);
+                self.fun_arg = saved_fun_arg;
+                self.pure_only -= arg_pure as u32;
+                r
+            }
+        }
+    }
+
+    fn expr_fun(&mut self, args: &[Ty], ret: &Ty, ty: &Ty, sc: &Scope, budget: &mut usize, cands: Vec<String>) -> E {
+        let _ = ty;
+        {
+            {
+                let named: Vec<String> = self
+                    .sigs
+                    .iter()
+                    .filter(|s| {
+                        !s.stateful
+                            && !s.recursive
+                            && &s.ret == ret
+                            && s.params.len() == args.len()
+                            && s.params.iter().zip(args.iter()).all(|(p, a)| &p.ty == a && p.default.is_none())
+                    })
+                    .map(|s| s.name.clone())
+                    .collect();
+                let w = [
+                    if self.feat.lambdas { 4u32 } else { 0 },
+                    if cands.is_empty() { 0 } else { 3 },
+                    if named.is_empty() { 0 } else { 3 },
+                ];
+                if w.iter().sum::<u32>() == 0 {
+                    return self.lambda(args, ret, sc, budget);
+                }
+                match self.rng.weighted(&w) {
+                    0 => self.lambda(args, ret, sc, budget),
+                    1 => E::Var(self.rng.pick(&cands).clone()),
+                    _ => {
+                        self.mark("fn_as_value");
+                        E::FnRef(self.rng.pick(&named).clone())
+                    }
+                }
+            }
+        }
+    }
+
+    fn lambda(&mut self, args: &[Ty], ret: &Ty, sc: &Scope, budget: &mut usize) -> E {
+        self.mark("lambda");
+        let params: Vec<Param> = args
+            .iter()
+            .map(|t| Param {
+                name: self.fresh("la"),
+                ty: t.clone(),
+                annot: *t != Ty::F || (self.feat.annot_floats && self.rng.chance(1, 3)),
+                default: None,
+            })
+            .collect();
+        let mut inner = sc.clone();
+        if self.feat.avoids("capture-of-destructured-variable") {
+            inner.vars.retain(|v| !(v.0.starts_with("dv") || v.0.starts_with("drb")));
+        }
+        // captured variables stay visible (and assignable: closures share captured cells)
+        for p in &params {
+            inner.vars.push((p.name.clone(), p.ty.clone(), false));
+        }
+        self.in_lambda += 1;
+        let saved_agg = std::mem::replace(&mut self.in_aggregate, 0);
+        let saved_self = self.self_ty.take();
+        let body = self.block(ret, &mut inner, budget, 2);
+        self.self_ty = saved_self;
+        self.in_aggregate = saved_agg;
+        self.in_lambda -= 1;
+        E::Lambda(params, Box::new(body))
+    }
+
+    fn callable(&self, ret: &Ty) -> Vec<Sig> {
+        self.sigs
+            .iter()
+            .filter(|s| &s.ret == ret && !s.recursive && (!s.stateful || (self.state_allowed() && s.depth < self.state_depth_left)))
+            .cloned()
+            .collect()
+    }
+
+    fn call(&mut self, s: &Sig, sc: &Scope, budget: &mut usize) -> E {
+        if s.stateful {
+            self.used_state = true;
+            self.max_callee_depth = self.max_callee_depth.max(s.depth);
+            self.mark("stateful_call");
+            if self.in_branch > 0 {
+                self.mark("stateful_call_in_branch");
+            }
+        }
+        let site = self.site();
+        // defaults: choose record style when the callee has defaulted parameters
+        let has_def = s.params.iter().any(|p| p.default.is_some());
+        if has_def && self.rng.chance(2, 3) {
+            self.mark("default_args");
+            let dotdot = self.feat.defaults_dotdot && self.rng.chance(1, 2);
+            let mut fields = vec![];
+            self.in_aggregate += 1;
+            self.pure_only += 1;
+            for p in &s.params {
+                if p.default.is_some() {
+                    continue;
+                }
+                fields.push((p.name.clone(), self.expr(&p.ty, sc, budget)));
+            }
+            self.pure_only -= 1;
+            self.in_aggregate -= 1;
+            if dotdot {
+                self.mark("default_args_dotdot");
+            }
+            return E::CallFn {
+                name: s.name.clone(),
+                args: vec![E::Record(fields)],
+                style: if dotdot { CallStyle::RecordDotDot } else { CallStyle::RecordOmitDefaults },
+                site,
+            };
+        }
+        self.fun_arg += 1;
+        let args: Vec<E> = s.params.iter().map(|p| self.expr(&p.ty, sc, budget)).collect();
+        self.fun_arg -= 1;
+        if self.feat.pipes && args.len() == 1 && self.rng.chance(1, 4) {
+            self.mark("pipe");
+            return E::PipeFn { arg: Box::new(args.into_iter().next().unwrap()), name: s.name.clone(), site };
+        }
+        E::CallFn { name: s.name.clone(), args, style: CallStyle::Positional, site }
+    }
+
+    fn if_expr(&mut self, ty: &Ty, sc: &Scope, budget: &mut usize) -> E {
+        self.mark("if");
+        let c = self.cond(sc, budget);
+        self.in_branch += 1;
+        let a = self.arm(ty, sc, budget);
+        let b = self.arm(ty, sc, budget);
+        self.in_branch -= 1;
+        E::If(Box::new(c), Box::new(a), Box::new(b))
+    }
+    fn arm(&mut self, ty: &Ty, sc: &Scope, budget: &mut usize) -> E {
+        let e = if self.rng.chance(1, 3) && *budget > 3 {
+            let mut inner = sc.clone();
+            let blk = self.block(ty, &mut inner, budget, 1);
+            E::Block(Box::new(blk))
+        } else {
+            self.expr(ty, sc, budget)
+        };
+        self.no_bare_projection(e, ty)
+    }
+    /// Under the quarantine `bare-projection-result`, an if-arm / function result that is a
+    /// bare projection (possibly at the end of a block) is routed through a computation.
+    fn no_bare_projection(&mut self, e: E, ty: &Ty) -> E {
+        if !self.feat.avoids("bare-projection-result") {
+            return e;
+        }
+        match e {
+            E::Proj(..) | E::Field(..) if *ty == Ty::F => E::Bin(BinOp::Mul, Box::new(e), Box::new(E::Num(1.0, false))),
+            E::Proj(..) | E::Field(..) => {
+                let n = self.fresh("v");
+                E::Block(Box::new(Block { stmts: vec![Stmt::Let(Pat::Var(n.clone()), None, e)], result: E::Var(n) }))
+            }
+            E::Block(mut b) => {
+                let r = std::mem::replace(&mut b.result, E::Now);
+                b.result = self.no_bare_projection(r, ty);
+                E::Block(b)
+            }
+            other => other,
+        }
+    }
+    fn cond(&mut self, sc: &Scope, budget: &mut usize) -> E {
+        let ops = [BinOp::Lt, BinOp::Le, BinOp::Gt, BinOp::Ge, BinOp::Eq, BinOp::Ne];
+        let cmp = |g: &mut Self, budget: &mut usize| {
+            let op = *g.rng.pick(&ops);
+            let a = g.expr_f(sc, budget);
+            let b = g.expr_f(sc, budget);
+            E::Bin(op, Box::new(a), Box::new(b))
+        };
+        match self.rng.below(6) {
+            0 => {
+                self.mark("logic");
+                let op = if self.rng.chance(1, 2) { BinOp::And } else { BinOp::Or };
+                let a = cmp(self, budget);
+                let b = cmp(self, budget);
+                E::Bin(op, Box::new(a), Box::new(b))
+            }
+            1 if !self.feat.avoids("not-builtin") => {
+                self.mark("not");
+                E::Not(Box::new(cmp(self, budget)))
+            }
+            _ => cmp(self, budget),
+        }
+    }
+
+    fn expr_f(&mut self, sc: &Scope, budget: &mut usize) -> E {
+        let paths = self.float_paths(sc);
+        if *budget == 0 {
+            return if !paths.is_empty() && self.rng.chance(2, 3) { self.rng.pick(&paths).clone() } else { self.lit() };
+        }
+        let st = self.state_allowed();
+        let fns = self.callable(&Ty::F);
+        let fvals: Vec<(String, Vec<Ty>)> = sc
+            .vars
+            .iter()
+            .filter_map(|(n, t, _)| match t {
+                Ty::Fun(a, r) if **r == Ty::F => Some((n.clone(), a.clone())),
+                _ => None,
+            })
+            .collect();
+        let rec_fns: Vec<Sig> = self.sigs.iter().filter(|s| s.recursive).cloned().collect();
+        let w = [
+            4u32,                                                                  // 0 literal
+            if paths.is_empty() { 0 } else { 8 },                                  // 1 var/path
+            8,                                                                     // 2 arithmetic
+            2,                                                                     // 3 comparison
+            if self.feat.math { 3 } else { 0 },                                    // 4 math builtin
+            if self.branch_ok() { 2 } else { 0 },                                  // 5 if
+            if fns.is_empty() { 0 } else { 7 },                                    // 6 call named
+            if fvals.is_empty() || self.pure_only > 0 { 0 } else { 4 },            // 7 call value
+            2,                                                                     // 8 block
+            if st && self.self_ty == Some(Ty::F) && self.feat.self_ { 5 } else { 0 }, // 9 self
+            if st && self.feat.mem { 3 } else { 0 },                               // 10 mem
+            if st && self.feat.delay { 3 } else { 0 },                             // 11 delay
+            if self.feat.now { 1 } else { 0 },                                     // 12 now
+            if self.feat.samplerate { 1 } else { 0 },                              // 13 samplerate
+            1,                                                                     // 14 neg
+            if self.feat.raw_logic { 2 } else { 0 },                               // 15 raw logic
+            if self.feat.lambdas && self.feat.hof { 1 } else { 0 },                // 16 immediate lambda call
+            if rec_fns.is_empty() { 0 } else { 2 },                                // 17 bounded recursion
+        ];
+        match self.rng.weighted(&w) {
+            0 => self.lit(),
+            1 => self.rng.pick(&paths).clone(),
+            2 => {
+                let mut ops = vec![BinOp::Add, BinOp::Sub, BinOp::Mul, BinOp::Add, BinOp::Mul];
+                if self.feat.div {
+                    ops.push(BinOp::Div);
+                }
+                if self.feat.modulo {
+                    ops.push(BinOp::Mod);
+                }
+                if self.feat.pow {
+                    ops.push(BinOp::Pow);
+                }
+                let op = *self.rng.pick(&ops);
+                self.mark(match op {
+                    BinOp::Div => "div",
+                    BinOp::Mod => "modulo",
+                    BinOp::Pow => "pow",
+                    _ => "arith",
+                });
+                let a = self.expr_f(sc, budget);
+                let b = match op {
+                    // keep exponents small and literal so values stay finite most of the time
+                    BinOp::Pow => E::Num(*self.rng.pick(&[2.0, 3.0, 0.5, 1.0]), false),
+                    _ => self.expr_f(sc, budget),
+                };
+                E::Bin(op, Box::new(a), Box::new(b))
+            }
+            3 => {
+                self.mark("comparison");
+                self.cond(sc, budget)
+            }
+            4 => {
+                self.mark("math");
+                if self.rng.chance(1, 4) {
+                    let n = *self.rng.pick(&MATH2);
+                    let a = self.expr_f(sc, budget);
+                    let b = self.expr_f(sc, budget);
+                    E::Builtin(n.into(), vec![a, b])
+                } else {
+                    let n = *self.rng.pick(&MATH1);
+                    let a = self.expr_f(sc, budget);
+                    E::Builtin(n.into(), vec![a])
+                }
+            }
+            5 => self.if_expr(&Ty::F, sc, budget),
+            6 => {
+                let s = self.rng.pick(&fns).clone();
+                self.call(&s, sc, budget)
+            }
+            7 => {
+                self.mark("call_fn_value");
+                let (n, a) = self.rng.pick(&fvals).clone();
+                self.fun_arg += 1;
+                let args: Vec<E> = a.iter().map(|t| self.expr(t, sc, budget)).collect();
+                self.fun_arg -= 1;
+                if self.feat.pipes && args.len() == 1 && self.rng.chance(1, 4) {
+                    self.mark("pipe");
+                    E::PipeVal(Box::new(args.into_iter().next().unwrap()), Box::new(E::Var(n)))
+                } else {
+                    E::CallVal(Box::new(E::Var(n)), args)
+                }
+            }
+            8 => {
+                self.mark("block");
+                let mut inner = sc.clone();
+                let mut blk = self.block(&Ty::F, &mut inner, budget, 2);
+                if matches!(blk.stmts.first(), Some(Stmt::Assign(..))) {
+                    // `{ x = e ...` would be read as a record literal
+                    let n = self.fresh("v");
+                    blk.stmts.insert(0, Stmt::Let(Pat::Var(n), None, E::Num(0.0, false)));
+                }
+                E::Block(Box::new(blk))
+            }
+            9 => {
+                self.mark("self");
+                self.used_state = true;
+                E::SelfE
+            }
+            10 => {
+                self.mark("mem");
+                self.used_state = true;
+                let a = self.expr_f(sc, budget);
+                let s = self.site();
+                E::Mem(Box::new(a), s)
+            }
+            11 => {
+                self.mark("delay");
+                self.used_state = true;
+                let n = *self.rng.pick(&[2u32, 3, 4, 5, 8, 16]);
+                let x = self.expr_f(sc, budget);
+                // 1 <= t <= n-1, finite by construction
+                let t = if self.rng.chance(1, 2) {
+                    E::Num(self.rng.range(1, n as i64 - 1) as f64 + if self.rng.chance(1, 3) { 0.5 } else { 0.0 }, false)
+                } else {
+                    // 1 + (|e| mod (n-2)) stays in range for any finite e; NaN/inf inputs are excluded by the callers
+                    let e = self.expr_f(sc, &mut 1);
+                    self.mark("delay_variable_time");
+                    E::Builtin(
+                        "min".into(),
+                        vec![
+                            E::Bin(BinOp::Add, Box::new(E::Num(1.0, false)), Box::new(E::Builtin("abs".into(), vec![e]))),
+                            E::Num((n - 1) as f64, false),
+                        ],
+                    )
+                };
+                let s = self.site();
+                E::Delay(n, Box::new(x), Box::new(t), s)
+            }
+            12 => {
+                self.mark("now");
+                E::Now
+            }
+            13 => {
+                self.mark("samplerate");
+                E::SampleRate
+            }
+            14 => E::Neg(Box::new(self.expr_f(sc, budget))),
+            15 => {
+                self.mark("raw_logic");
+                let op = if self.rng.chance(1, 2) { BinOp::And } else { BinOp::Or };
+                let a = self.expr_f(sc, budget);
+                let b = self.expr_f(sc, budget);
+                E::Bin(op, Box::new(a), Box::new(b))
+            }
+            16 => {
+                self.mark("immediate_lambda_call");
+                let l = self.lambda(&[Ty::F], &Ty::F, sc, budget);
+                let a = self.expr_f(sc, budget);
+                E::CallVal(Box::new(l), vec![a])
+            }
+            _ => {
+                self.mark("recursion");
+                let s = self.rng.pick(&rec_fns).clone();
+                let n = self.rng.range(0, 6) as f64;
+                let mut args = vec![E::Num(n, false)];
+                for p in &s.params[1..] {
+                    args.push(self.expr(&p.ty, sc, budget));
+                }
+                let site = self.site();
+                E::CallFn { name: s.name.clone(), args, style: CallStyle::Positional, site }
+            }
+        }
+    }
+
+    /// A block producing `ty`: some statements, then the result.
+    fn block(&mut self, ty: &Ty, sc: &mut Scope, budget: &mut usize, max_stmts: usize) -> Block {
+        let n = self.rng.below(max_stmts + 1);
+        let mut stmts = vec![];
+        for _ in 0..n {
+            if *budget == 0 {
+                break;
+            }
+            stmts.push(self.stmt(sc, budget));
+        }
+        let result = self.expr(ty, sc, budget);
+        Block { stmts, result }
+    }
+
+    fn bind_pat(&mut self, ty: &Ty, sc: &mut Scope, depth: usize) -> Pat {
+        match ty {
+            Ty::Tup(ts) if depth < 2 && self.rng.chance(1, 2) => {
+                self.mark("let_tuple_pattern");
+                if depth > 0 {
+                    self.mark("let_nested_tuple_pattern");
+                }
+                Pat::Tup(ts.iter().map(|t| self.bind_pat(t, sc, depth + 1)).collect())
+            }
+            Ty::Rec(fs) if depth == 0 && self.rng.chance(1, 2) => {
+                self.mark("let_record_pattern");
+                Pat::Rec(
+                    fs.iter()
+                        .map(|(f, t)| {
+                            let b = self.fresh("drb");
+                            sc.vars.push((b.clone(), t.clone(), *t == Ty::F));
+                            (f.clone(), b)
+                        })
+                        .collect(),
+                )
+            }
+            _ => {
+                let n = self.fresh(if depth > 0 { "dv" } else { "v" });
+                sc.vars.push((n.clone(), ty.clone(), *ty == Ty::F));
+                Pat::Var(n)
+            }
+        }
+    }
+
+    fn stmt(&mut self, sc: &mut Scope, budget: &mut usize) -> Stmt {
+        let assignable: Vec<String> = sc.vars.iter().filter(|v| v.2).map(|v| v.0.clone()).collect();
+        let self_tuple = matches!(self.self_ty, Some(Ty::Tup(_))) && self.state_allowed();
+        let w = [
+            8u32,
+            if self.feat.closures_assign
+                && self.pure_only == 0
+                && !assignable.is_empty()
+                && !(self.in_lambda >= 2 && self.feat.avoids("assign-through-nested-lambda"))
+            {
+                3
+            } else {
+                0
+            },
+            if self.feat.lambdas { 2 } else { 0 },
+            if self_tuple { 4 } else { 0 },
+        ];
+        match self.rng.weighted(&w) {
+            3 => {
+                // `let (a, b) = self`
+                self.mark("self_tuple");
+                self.used_state = true;
+                let ty = self.self_ty.clone().unwrap();
+                let Ty::Tup(ts) = &ty else { unreachable!() };
+                let p = Pat::Tup(
+                    ts.iter()
+                        .map(|t| {
+                            let n = self.fresh("dv");
+                            sc.vars.push((n.clone(), t.clone(), *t == Ty::F));
+                            Pat::Var(n)
+                        })
+                        .collect(),
+                );
+                Stmt::Let(p, None, E::SelfE)
+            }
+            0 => {
+                let ty = self.rand_data_ty(0);
+                let e = self.expr(&ty, sc, budget);
+                let annot = if ty != Ty::F && self.rng.chance(1, 4) || (ty == Ty::F && self.feat.annot_floats && self.rng.chance(1, 6)) {
+                    Some(ty.clone())
+                } else {
+                    None
+                };
+                let p = if e == E::SelfE && self.feat.avoids("projection-from-self") {
+                    match &ty {
+                        Ty::Tup(ts) => Pat::Tup(
+                            ts.iter()
+                                .map(|t| {
+                                    let n = self.fresh("dv");
+                                    sc.vars.push((n.clone(), t.clone(), *t == Ty::F));
+                                    Pat::Var(n)
+                                })
+                                .collect(),
+                        ),
+                        _ => self.bind_pat(&ty, sc, 0),
+                    }
+                } else {
+                    self.bind_pat(&ty, sc, 0)
+                };
+                let annot = if matches!(p, Pat::Var(_)) { annot } else { None };
+                Stmt::Let(p, annot, e)
+            }
+            1 => {
+                self.mark("assign");
+                if self.in_lambda > 0 {
+                    self.mark("assign_captured_in_lambda");
+                }
+                let n = self.rng.pick(&assignable).clone();
+                let e = self.expr_f(sc, budget);
+                Stmt::Assign(n, e)
+            }
+            _ => {
+                // bind a local function value
+                let nargs = self.rng.range(1, 2) as usize;
+                let args = vec![Ty::F; nargs];
+                let fty = Ty::Fun(args.clone(), Box::new(Ty::F));
+                let e = self.expr(&fty, sc, budget);
+                let n = self.fresh("lf");
+                sc.vars.push((n.clone(), fty, false));
+                Stmt::Let(Pat::Var(n), None, e)
+            }
+        }
+    }
+
+    // ---- definitions
+
+    fn gen_params(&mut self, n: usize, allow_fun: bool, allow_default: bool) -> Vec<Param> {
+        let mut ps: Vec<Param> = vec![];
+        let mut any_default = false;
+        for i in 0..n {
+            let ty = if allow_fun && self.feat.hof && self.rng.chance(1, 6) {
+                self.mark("hof_param");
+                Ty::Fun(vec![Ty::F], Box::new(Ty::F))
+            } else {
+                self.rand_data_ty(0)
+            };
+            let default = if allow_default && self.feat.defaults && ty == Ty::F && i > 0 && self.rng.chance(1, 5) {
+                any_default = true;
+                Some(*self.rng.pick(&[0.5, 1.0, 2.0, 3.0, 100.0]))
+            } else {
+                None
+            };
+            let annot = ty != Ty::F || default.is_some() || (self.feat.annot_floats && self.rng.chance(1, 3));
+            ps.push(Param { name: self.fresh("a"), ty, annot, default });
+        }
+        if any_default {
+            // record-style calls need every parameter typed (see DESIGN §3a)
+            for p in ps.iter_mut() {
+                p.annot = true;
+            }
+            // function-typed params cannot be given by record literal fields reliably; drop them
+            for p in ps.iter_mut() {
+                if matches!(p.ty, Ty::Fun(..)) {
+                    p.ty = Ty::F;
+                }
+            }
+        }
+        ps
+    }
+
+    fn gen_fn(&mut self, stateful: bool, depth_left: usize) -> FnDef {
+        let name = self.fresh(if stateful { "sf" } else { "pf" });
+        let np = self.rng.range(0, 3) as usize;
+        let np = if stateful { np } else { np.max(1) };
+        let params = self.gen_params(np, !stateful, true);
+        let ret = if stateful && self.feat.self_tuple && self.feat.tuples && self.rng.chance(1, 5) {
+            Ty::Tup(vec![Ty::F, Ty::F])
+        } else if self.rng.chance(1, 5) {
+            self.rand_data_ty(0)
+        } else {
+            Ty::F
+        };
+        let mut sc = Scope { vars: params.iter().map(|p| (p.name.clone(), p.ty.clone(), false)).collect() };
+        self.stateful_ok = stateful;
+        self.state_depth_left = depth_left;
+        let flat = match &ret {
+            Ty::F => true,
+            Ty::Tup(ts) => ts.iter().all(|t| *t == Ty::F),
+            _ => false,
+        };
+        self.self_ty = if stateful
+            && ret.is_data()
+            && (flat || !self.feat.avoids("projection-from-self"))
+            && (ret == Ty::F && self.feat.self_ || ret != Ty::F && self.feat.self_tuple)
+        {
+            Some(ret.clone())
+        } else {
+            None
+        };
+        self.used_state = false;
+        self.max_callee_depth = 0;
+        let mut budget = self.feat.budget;
+        let mut body = self.block(&ret, &mut sc, &mut budget, 3);
+        if stateful && !self.used_state {
+            // force at least one state cell so the function really is stateful
+            let s = self.site();
+            self.mark("mem");
+            let extra = E::Mem(Box::new(self.expr_f(&sc, &mut 2)), s);
+            let n = self.fresh("v");
+            body.stmts.push(Stmt::Let(Pat::Var(n), None, extra));
+        }
+        self.stateful_ok = false;
+        self.self_ty = None;
+        let uses_self = block_mentions_self(&body);
+        if uses_self {
+            let r = std::mem::replace(&mut body.result, E::Now);
+            body.result = self.no_bare_projection(r, &ret);
+        }
+        let ret_annot = ret != Ty::F && self.rng.chance(2, 3) || ret == Ty::F && self.rng.chance(1, 4);
+        let ret_annot = ret_annot || (uses_self && self.feat.avoids("self-type-unresolved"));
+        // tuple-valued self needs the annotation to be inferable in all cases
+        let ret_annot = ret_annot || (ret != Ty::F && stateful);
+        FnDef { name, params, ret, ret_annot, body, stateful }
+    }
+
+    fn gen_recursive_fn(&mut self) -> FnDef {
+        // fn r(n, acc) { if (n > 0) r(n - 1, <expr over acc, n>) else acc }
+        let name = self.fresh("rf");
+        let n = self.fresh("a");
+        let acc = self.fresh("a");
+        let sc = Scope { vars: vec![(n.clone(), Ty::F, false), (acc.clone(), Ty::F, false)] };
+        let step = self.expr_f(&sc, &mut 4);
+        let site = self.site();
+        let body = Block {
+            stmts: vec![],
+            result: E::If(
+                Box::new(E::Bin(BinOp::Gt, Box::new(E::Var(n.clone())), Box::new(E::Num(0.0, false)))),
+                Box::new(E::CallFn {
+                    name: name.clone(),
+                    args: vec![E::Bin(BinOp::Sub, Box::new(E::Var(n.clone())), Box::new(E::Num(1.0, false))), step],
+                    style: CallStyle::Positional,
+                    site,
+                }),
+                Box::new(E::Var(acc.clone())),
+            ),
+        };
+        FnDef {
+            name,
+            params: vec![
+                Param { name: n, ty: Ty::F, annot: true, default: None },
+                Param { name: acc, ty: Ty::F, annot: true, default: None },
+            ],
+            ret: Ty::F,
+            ret_annot: true,
+            body,
+            stateful: false,
+        }
+    }
+
+    fn sig_of(&self, f: &FnDef, recursive: bool) -> Sig {
+        Sig {
+            name: f.name.clone(),
+            params: f.params.clone(),
+            ret: f.ret.clone(),
+            stateful: f.stateful,
+            recursive,
+            depth: if f.stateful { 1 + self.max_callee_depth } else { 0 },
+        }
+    }
+
+    /// `fn mk(){ let c = init; |d| { c = c + d; c } }` + `let g = mk()`
+    fn gen_escaping_closure(&mut self, fns: &mut Vec<FnDef>, globals: &mut Vec<(String, Ty, E)>) {
+        self.mark("escaping_closure");
+        let mk = self.fresh("mk");
+        let c = self.fresh("v");
+        let d = self.fresh("la");
+        let init = self.lit();
+        let sc = Scope { vars: vec![(c.clone(), Ty::F, true), (d.clone(), Ty::F, false)] };
+        self.in_lambda += 1;
+        let upd = self.expr_f(&sc, &mut 3);
+        self.in_lambda -= 1;
+        let lam = E::Lambda(
+            vec![Param { name: d.clone(), ty: Ty::F, annot: false, default: None }],
+            Box::new(Block {
+                stmts: vec![Stmt::Assign(c.clone(), E::Bin(BinOp::Add, Box::new(E::Var(c.clone())), Box::new(upd)))],
+                result: E::Var(c.clone()),
+            }),
+        );
+        let fty = Ty::Fun(vec![Ty::F], Box::new(Ty::F));
+        fns.push(FnDef {
+            name: mk.clone(),
+            params: vec![],
+            ret: fty.clone(),
+            ret_annot: false,
+            body: Block { stmts: vec![Stmt::Let(Pat::Var(c), None, init)], result: lam },
+            stateful: false,
+        });
+        let g = self.fresh("g");
+        let site = self.site();
+        globals.push((g.clone(), fty.clone(), E::CallFn { name: mk, args: vec![], style: CallStyle::Positional, site }));
+        self.globals.push((g, fty));
+    }
+
+    pub fn program(mut self) -> Program {
+        let mut fns: Vec<FnDef> = vec![];
+        let mut globals: Vec<(String, Ty, E)> = vec![];
+        let mut pre_globals: Vec<(String, Ty, E)> = vec![];
+        // global data first (functions may read them)
+        if self.feat.globals {
+            for _ in 0..self.rng.below(3) {
+                let ty = self.rand_data_ty(0);
+                let sc = Scope { vars: vec![] };
+                let saved = (self.feat.now, self.feat.samplerate);
+                self.feat.now = false;
+                if self.feat.avoids("samplerate-in-global-init") {
+                    self.feat.samplerate = false;
+                }
+                let e = self.expr(&ty, &sc, &mut 3);
+                (self.feat.now, self.feat.samplerate) = saved;
+                let n = self.fresh("g");
+                self.mark("global");
+                pre_globals.push((n.clone(), ty.clone(), e));
+                self.globals.push((n, ty));
+            }
+        }
+        let nf = 1 + self.rng.below(self.feat.max_fns.max(1));
+        if self.feat.recursion && self.rng.chance(1, 3) {
+            let f = self.gen_recursive_fn();
+            let sg = self.sig_of(&f, true);
+            self.sigs.push(sg);
+            fns.push(f);
+        }
+        let any_state = self.feat.self_ || self.feat.mem || self.feat.delay;
+        for _ in 0..nf {
+            let stateful = any_state && self.rng.chance(1, 2);
+            let f = self.gen_fn(stateful, self.feat.max_state_depth);
+            let sg = self.sig_of(&f, false);
+            self.sigs.push(sg);
+            fns.push(f);
+        }
+        if self.feat.escaping_closures && self.feat.lambdas && self.feat.closures_assign && self.rng.chance(1, 3) {
+            self.gen_escaping_closure(&mut fns, &mut globals);
+        }
+        // globals holding function values are callable from dsp through scope lookup
+        let mut sc = Scope { vars: vec![] };
+        for (n, t) in &self.globals {
+            if matches!(t, Ty::Fun(..)) {
+                sc.vars.push((n.clone(), t.clone(), false));
+            }
+        }
+        // dsp
+        let mut params = vec![];
+        if self.feat.dsp_input && self.rng.chance(1, 2) {
+            if self.feat.tuples && self.rng.chance(1, 3) {
+                self.mark("dsp_input_tuple");
+                let n = self.fresh("in");
+                params.push(Param { name: n, ty: Ty::Tup(vec![Ty::F, Ty::F]), annot: true, default: None });
+            } else {
+                self.mark("dsp_input");
+                let n = self.fresh("in");
+                params.push(Param { name: n, ty: Ty::F, annot: true, default: None });
+            }
+        }
+        for p in &params {
+            sc.vars.push((p.name.clone(), p.ty.clone(), false));
+        }
+        let nch = *self.rng.pick(&[1usize, 1, 1, 2, 2, 3]);
+        let ret = if nch == 1 { Ty::F } else { Ty::Tup(vec![Ty::F; nch]) };
+        self.stateful_ok = any_state;
+        self.state_depth_left = self.feat.max_state_depth + 1;
+        self.self_ty = if self.feat.self_ && nch == 1 && self.rng.chance(1, 4) { Some(Ty::F) } else { None };
+        let mut budget = self.feat.budget * 2;
+        let mut body = self.block(&ret, &mut sc, &mut budget, 4);
+        if self.feat.many_locals {
+            self.mark("many_locals");
+            let mut extra = vec![];
+            let mut acc = E::Num(0.0, false);
+            for i in 0..300 {
+                let n = self.fresh("ml");
+                extra.push(Stmt::Let(Pat::Var(n.clone()), None, E::Num((i % 7) as f64, false)));
+                if i % 50 == 0 {
+                    acc = E::Bin(BinOp::Add, Box::new(acc), Box::new(E::Var(n)));
+                }
+            }
+            let n = self.fresh("ml");
+            extra.push(Stmt::Let(Pat::Var(n), None, acc));
+            extra.extend(body.stmts);
+            body.stmts = extra;
+        }
+        let uses_self = block_mentions_self(&body);
+        if uses_self {
+            let r = std::mem::replace(&mut body.result, E::Now);
+            body.result = self.no_bare_projection(r, &ret);
+        }
+        let ret_annot = uses_self && self.feat.avoids("self-type-unresolved");
+        let dsp = FnDef { name: "dsp".into(), params, ret, ret_annot, body, stateful: true };
+        Program { pre_globals, fns, globals, dsp, features: self.used.into_iter().collect() }
+    }
+}
+
+/// does the block mention `self` outside nested lambdas?
+pub fn block_mentions_self(b: &Block) -> bool {
+    let mut found = false;
+    crate::gens::shrink::visit_block_pub(b, &mut |e| {
+        if matches!(e, E::SelfE) {
+            found = true;
+        }
+    });
+    found
+}
+
+pub fn generate(rng: &mut Rng, feat: Feat) -> Program {
+    Gen::new(rng, feat).program()
+}
